@@ -212,6 +212,12 @@ class EllipseFitter:
                 return Isophote(minimum_amplitude_sample, i + 1, valid=True,
                                 stop_code=1)
 
+            # no finite correction can be computed from a zero (or
+            # undefined) gradient (e.g., nearest-neighbor sampling at
+            # very small radii): handle it like a failed gradient check.
+            if not np.isfinite(sample.gradient) or sample.gradient == 0.0:
+                return Isophote(sample, i + 1, valid=True, stop_code=-1)
+
             # pick appropriate corrector code.
             corrector = _CORRECTORS[largest_harmonic_index]
 
